@@ -16,7 +16,7 @@ CLAIMED = {
         note="Partial: the end-to-end theorems cover MaximizeCAI (both strands) without start-codon policy; the other variants are differential; named codon tables are the sandbox shim's; log/ratio floats compared with 1e-9 tolerance.",
         technique="Coq proof (restriction meaning for EnforceTranslation; per-codon decomposition of CAI; induction over the reported locations of optimize_objective on top of the exact optimality of the local exhaustive search) + vm_compute correspondence of the classes + end-to-end oracle on the implementation", design="6/C07"),
     "C04": dict(
-        text="Theorems (Coq): the space built by from_optimization_problem's merge procedure is EXACT - a sequence of the right length is a member iff it satisfies every restriction choice (merge_with keeps exactly the variants compatible with ALL overlapping choices, extract_varying_region is exact), the space is a well-formed partition, 'unsolvable' (a choice left without variant) iff no sequence satisfies all restrictions, constrain_sequence moves the initial sequence into the space. The per-class meaning is a theorem too: for AvoidChanges without edit allowance, EnforceChanges at 100 %, EnforceSequence (IUPAC, both strands), EnforceChoice and AvoidRareCodons the restriction choices hold on a sequence iff the specification's own evaluation passes on it (C04_restrictions_hold_iff_the_specification_passes; hypothesis: indices lie inside the location, refuted without it), and for EnforceTranslation iff the region encodes the protein / obeys the start-codon policy (C07). Also decided by brute force over all 4^L sequences (membership vs evaluate().passes) on the implementation.",
+        text="Theorems (Coq): the space built by from_optimization_problem's merge procedure is EXACT - a sequence of the right length is a member iff it satisfies every restriction choice (merge_with keeps exactly the variants compatible with ALL overlapping choices, extract_varying_region is exact), the space is a well-formed partition, 'unsolvable' (a choice left without variant) iff no sequence satisfies all restrictions, constrain_sequence moves the initial sequence into the space. The per-class meaning is a theorem too: for AvoidChanges without edit allowance, EnforceChanges at 100 %, EnforceSequence (IUPAC, both strands), EnforceChoice and AvoidRareCodons the restriction choices hold on a sequence iff the specification's own evaluation passes on it (C04_restrictions_hold_iff_the_specification_passes; hypothesis: indices lie inside the location, refuted without it; for EnforceChanges also with ANY stored reference of the right size, C04_enforce_changes_exact_for_any_reference), and for EnforceTranslation iff the region encodes the protein / obeys the start-codon policy (C07). Also decided by brute force over all 4^L sequences (membership vs evaluate().passes) on the implementation.",
         note="Trusted: Coq kernel; hand model of MutationSpace/MutationChoice tied by correspondence; start-codon policy is read as part of the documented predicate of EnforceTranslation (the space is stricter than evaluate(), DESIGN section 7).",
         technique="Coq proof (fold invariant: partition index representing the intersection so far) + vm_compute correspondence + brute-force oracle", design="6/C04"),
     "C10": dict(
@@ -24,7 +24,7 @@ CLAIMED = {
         note="Trusted: Coq kernel; hand model Model/Specs.v; thresholds read as written decimals; codon tables are data (log-frequencies supplied as exact values of the implementation's floats).",
         technique="Coq proof (formula = algorithm, coverage via grouping lemmas) + vm_compute correspondence + independent reference oracles", design="6/C10"),
     "C13": dict(
-        text="Theorems (Coq): CircularDnaOptimizationProblem.resolve_constraints returns normally only if the circular evaluation of every constraint passes (final-check dominance, whatever the solver did on the three-copy view) and keeps the length; the circular evaluation sees across the origin (a passing whole-sequence AvoidPattern / windowed GC on the three-copy view has no occurrence / breaching window in s + s[:k-1]); edit mirroring yields three equal copies and takes over single-copy edits; AvoidChanges (location, indices, allowance) passes the circular evaluation iff it passes on the sequence itself, its score being the allowance minus the number of edited positions. Circular evaluations (AvoidChanges after edits included), specification shifting and mirroring tied by correspondence; solves checked by an independent cyclic scan, all_constraints_pass(autopass=False) and hard-restriction membership on the implementation.",
+        text="Theorems (Coq): CircularDnaOptimizationProblem.resolve_constraints returns normally only if the circular evaluation of every constraint passes (final-check dominance, whatever the solver did on the three-copy view) and keeps the length; the circular evaluation sees across the origin (a passing whole-sequence AvoidPattern / windowed GC on the three-copy view has no occurrence / breaching window in s + s[:k-1]); edit mirroring yields three equal copies and takes over single-copy edits; AvoidChanges and EnforceChanges (location, indices, allowance / minimum / amount) pass the circular evaluation iff they pass on the sequence itself, the AvoidChanges score being the allowance minus the number of edited positions. Circular evaluations of every relocated class (12 classes, as constraint or objective, after edits), specification shifting and mirroring tied by correspondence; solves checked by an independent cyclic scan, all_constraints_pass(autopass=False) and hard-restriction membership on the implementation.",
         note="Trusted: Coq kernel; the solver run on the three-copy view is abstract in the theorem (its linear version is the subject of C01/C12); hard restrictions after a circular solve are decided by the oracle, not by a theorem.",
         technique="Coq proof (final-check dominance, wrap-around window lemmas) + vm_compute correspondence + cyclic-scan oracle", design="6/C13"),
     "C16": dict(
